@@ -102,9 +102,8 @@ def transP (d : W8) : W8 :=
 
 def c3 (i : Nat) : UInt32 := gostC3.toArray[i]!
 
-/-- key generation of `pp_crypto_hash_gost3411_process`: the four vectors `W` that are passed to
-    `P_GOST_3411_P` (the in-place updates of `U[]`, `V[]` in source order) -/
-@[inline] def keyGenW (hash data : W8) : W8 × W8 × W8 × W8 :=
+/-- `pp_crypto_hash_gost3411_process (ctx, data)`: the new `ctx->hash` -/
+def step (hash data : W8) : W8 :=
   let H0 := hash.w0; let H1 := hash.w1; let H2 := hash.w2; let H3 := hash.w3
   let H4 := hash.w4; let H5 := hash.w5; let H6 := hash.w6; let H7 := hash.w7
   let M0 := data.w0; let M1 := data.w1; let M2 := data.w2; let M3 := data.w3
@@ -113,7 +112,7 @@ def c3 (i : Nat) : UInt32 := gostC3.toArray[i]!
   let U0 := H0; let U1 := H1; let U2 := H2; let U3 := H3; let U4 := H4; let U5 := H5; let U6 := H6; let U7 := H7
   let V0 := M0; let V1 := M1; let V2 := M2; let V3 := M3; let V4 := M4; let V5 := M5; let V6 := M6; let V7 := M7
   -- first key: P (U xor V)
-  let W_0 : W8 := ⟨U0 ^^^ V0, U1 ^^^ V1, U2 ^^^ V2, U3 ^^^ V3, U4 ^^^ V4, U5 ^^^ V5, U6 ^^^ V6, U7 ^^^ V7⟩
+  let K0 := transP ⟨U0 ^^^ V0, U1 ^^^ V1, U2 ^^^ V2, U3 ^^^ V3, U4 ^^^ V4, U5 ^^^ V5, U6 ^^^ V6, U7 ^^^ V7⟩
   -- second key: P (A (U) xor A^2 (V))
   let W0 := U2 ^^^ V4
   let W1 := U3 ^^^ V5
@@ -123,7 +122,7 @@ def c3 (i : Nat) : UInt32 := gostC3.toArray[i]!
   let V1 := V1 ^^^ V3; let W5 := U7 ^^^ V1
   let U0 := U0 ^^^ U2; let V2 := V2 ^^^ V4; let W6 := U0 ^^^ V2
   let U1 := U1 ^^^ U3; let V3 := V3 ^^^ V5; let W7 := U1 ^^^ V3
-  let W_1 : W8 := ⟨W0, W1, W2, W3, W4, W5, W6, W7⟩
+  let K1 := transP ⟨W0, W1, W2, W3, W4, W5, W6, W7⟩
   -- third key: P ((A^2 (U) + C3) xor A^4 (V))
   let U2 := U2 ^^^ (U4 ^^^ c3 0)
   let U3 := U3 ^^^ (U5 ^^^ c3 1)
@@ -141,7 +140,7 @@ def c3 (i : Nat) : UInt32 := gostC3.toArray[i]!
   let W3 := U7 ^^^ V3
   let V5 := V5 ^^^ V7; let W5 := U1 ^^^ V5
   let V7 := V7 ^^^ V1; let W7 := U3 ^^^ V7
-  let W_2 : W8 := ⟨W0, W1, W2, W3, W4, W5, W6, W7⟩
+  let K2 := transP ⟨W0, W1, W2, W3, W4, W5, W6, W7⟩
   -- fourth key: P (A (A^2 (U) xor C3) xor A^6 (V))
   let W0 := U6 ^^^ V4
   let W1 := U7 ^^^ V5
@@ -151,27 +150,13 @@ def c3 (i : Nat) : UInt32 := gostC3.toArray[i]!
   let V1 := V1 ^^^ V3; let W5 := U3 ^^^ V1
   let U4 := U4 ^^^ U6; let V2 := V2 ^^^ V4; let W6 := U4 ^^^ V2
   let U5 := U5 ^^^ U7; let V3 := V3 ^^^ V5; let W7 := U5 ^^^ V3
-  let W_3 : W8 := ⟨W0, W1, W2, W3, W4, W5, W6, W7⟩
-  (W_0, W_1, W_2, W_3)
-
-/-- "(12 rounds of LFSR) xor M": the new `U[]` -/
-@[inline] def lfsr12 (S data : W8) : W8 :=
-  let S0 := S.w0
-  let S1 := S.w1
-  let S2 := S.w2
-  let S3 := S.w3
-  let S4 := S.w4
-  let S5 := S.w5
-  let S6 := S.w6
-  let S7 := S.w7
-  let M0 := data.w0
-  let M1 := data.w1
-  let M2 := data.w2
-  let M3 := data.w3
-  let M4 := data.w4
-  let M5 := data.w5
-  let M6 := data.w6
-  let M7 := data.w7
+  let K3 := transP ⟨W0, W1, W2, W3, W4, W5, W6, W7⟩
+  -- GOST 28147-89 encryption of the four 64-bit parts of ctx->hash
+  let (S0, S1) := encrypt H0 H1 K0
+  let (S2, S3) := encrypt H2 H3 K1
+  let (S4, S5) := encrypt H4 H5 K2
+  let (S6, S7) := encrypt H6 H7 K3
+  -- (12 rounds of LFSR) xor M;  (1 round of LFSR) xor Hprev;  final 61 rounds of LFSR
   let U0 : UInt32 := M0 ^^^ S6
   let U1 : UInt32 := M1 ^^^ S7
   let U2 : UInt32 := M2 ^^^ (S0 &&& (0x0000FFFF : UInt32)) ^^^ (S0 >>> 16) ^^^ (S0 <<< 16) ^^^ (S1 &&& (0x0000FFFF : UInt32)) ^^^ (S1 >>> 16) ^^^ (S2 <<< 16) ^^^ (S7 &&& (0xFFFF0000 : UInt32)) ^^^ (S6 <<< 16) ^^^ (S7 >>> 16) ^^^ S6
@@ -180,26 +165,6 @@ def c3 (i : Nat) : UInt32 := gostC3.toArray[i]!
   let U5 : UInt32 := M5 ^^^ (S0 &&& (0xFFFF0000 : UInt32)) ^^^ (S0 >>> 16) ^^^ (S0 <<< 16) ^^^ (S1 &&& (0x0000FFFF : UInt32)) ^^^ (S7 >>> 16) ^^^ (S2 >>> 16) ^^^ (S7 &&& (0xFFFF0000 : UInt32)) ^^^ (S3 >>> 16) ^^^ (S4 <<< 16) ^^^ (S4 >>> 16) ^^^ (S5 <<< 16) ^^^ (S6 <<< 16) ^^^ (S6 >>> 16) ^^^ (S3 <<< 16) ^^^ (S7 <<< 16) ^^^ S2
   let U6 : UInt32 := M6 ^^^ (S4 >>> 16) ^^^ (S1 >>> 16) ^^^ (S2 <<< 16) ^^^ (S7 <<< 16) ^^^ (S3 >>> 16) ^^^ (S4 <<< 16) ^^^ (S5 <<< 16) ^^^ (S5 >>> 16) ^^^ (S6 <<< 16) ^^^ (S6 >>> 16) ^^^ S6 ^^^ S0 ^^^ S3
   let U7 : UInt32 := M7 ^^^ (S0 &&& (0xFFFF0000 : UInt32)) ^^^ (S0 <<< 16) ^^^ (S1 <<< 16) ^^^ (S1 &&& (0x0000FFFF : UInt32)) ^^^ (S2 >>> 16) ^^^ (S3 <<< 16) ^^^ (S7 &&& (0x0000FFFF : UInt32)) ^^^ (S4 >>> 16) ^^^ (S5 <<< 16) ^^^ (S5 >>> 16) ^^^ (S6 >>> 16) ^^^ (S7 <<< 16) ^^^ (S7 >>> 16) ^^^ S4
-  ⟨U0, U1, U2, U3, U4, U5, U6, U7⟩
-
-/-- "(1 round of LFSR) xor Hprev": the new `V[]` -/
-@[inline] def lfsr1 (U hash : W8) : W8 :=
-  let U0 := U.w0
-  let U1 := U.w1
-  let U2 := U.w2
-  let U3 := U.w3
-  let U4 := U.w4
-  let U5 := U.w5
-  let U6 := U.w6
-  let U7 := U.w7
-  let H0 := hash.w0
-  let H1 := hash.w1
-  let H2 := hash.w2
-  let H3 := hash.w3
-  let H4 := hash.w4
-  let H5 := hash.w5
-  let H6 := hash.w6
-  let H7 := hash.w7
   let V0 : UInt32 := H0 ^^^ (U1 <<< 16) ^^^ (U0 >>> 16)
   let V1 : UInt32 := H1 ^^^ (U2 <<< 16) ^^^ (U1 >>> 16)
   let V2 : UInt32 := H2 ^^^ (U3 <<< 16) ^^^ (U2 >>> 16)
@@ -208,18 +173,6 @@ def c3 (i : Nat) : UInt32 := gostC3.toArray[i]!
   let V5 : UInt32 := H5 ^^^ (U6 <<< 16) ^^^ (U5 >>> 16)
   let V6 : UInt32 := H6 ^^^ (U7 <<< 16) ^^^ (U6 >>> 16)
   let V7 : UInt32 := H7 ^^^ (U7 >>> 16) ^^^ (U0 <<< 16) ^^^ (U1 &&& (0xFFFF0000 : UInt32)) ^^^ (U1 <<< 16) ^^^ (U7 &&& (0xFFFF0000 : UInt32)) ^^^ (U6 <<< 16) ^^^ (U0 &&& (0xFFFF0000 : UInt32))
-  ⟨V0, V1, V2, V3, V4, V5, V6, V7⟩
-
-/-- "Final 61 rounds of LFSR": the new `ctx->hash` -/
-@[inline] def lfsr61 (V : W8) : W8 :=
-  let V0 := V.w0
-  let V1 := V.w1
-  let V2 := V.w2
-  let V3 := V.w3
-  let V4 := V.w4
-  let V5 := V.w5
-  let V6 := V.w6
-  let V7 := V.w7
   let R0 : UInt32 := (V0 &&& (0xFFFF0000 : UInt32)) ^^^ (V0 <<< 16) ^^^ (V0 >>> 16) ^^^ (V1 &&& (0xFFFF0000 : UInt32)) ^^^ (V1 >>> 16) ^^^ (V2 <<< 16) ^^^ (V7 &&& (0x0000FFFF : UInt32)) ^^^ (V3 >>> 16) ^^^ (V4 <<< 16) ^^^ (V5 >>> 16) ^^^ (V6 >>> 16) ^^^ (V7 <<< 16) ^^^ (V7 >>> 16) ^^^ V5
   let R1 : UInt32 := (V0 &&& (0xFFFF0000 : UInt32)) ^^^ (V0 <<< 16) ^^^ (V0 >>> 16) ^^^ (V1 &&& (0x0000FFFF : UInt32)) ^^^ (V2 >>> 16) ^^^ (V3 <<< 16) ^^^ (V7 &&& (0xFFFF0000 : UInt32)) ^^^ (V4 >>> 16) ^^^ (V5 <<< 16) ^^^ (V6 <<< 16) ^^^ (V7 >>> 16) ^^^ V6 ^^^ V2
   let R2 : UInt32 := (V0 &&& (0x0000FFFF : UInt32)) ^^^ (V0 <<< 16) ^^^ (V1 <<< 16) ^^^ (V7 &&& (0x0000FFFF : UInt32)) ^^^ (V1 >>> 16) ^^^ (V2 <<< 16) ^^^ (V1 &&& (0xFFFF0000 : UInt32)) ^^^ (V3 >>> 16) ^^^ (V4 <<< 16) ^^^ (V5 >>> 16) ^^^ (V6 >>> 16) ^^^ (V7 <<< 16) ^^^ (V7 >>> 16) ^^^ V3 ^^^ V6
@@ -229,22 +182,6 @@ def c3 (i : Nat) : UInt32 := gostC3.toArray[i]!
   let R6 : UInt32 := (V2 >>> 16) ^^^ (V3 <<< 16) ^^^ (V4 >>> 16) ^^^ (V5 <<< 16) ^^^ (V5 >>> 16) ^^^ (V6 <<< 16) ^^^ (V6 >>> 16) ^^^ (V7 <<< 16) ^^^ V7 ^^^ V0 ^^^ V2 ^^^ V3 ^^^ V4 ^^^ V5 ^^^ V6
   let R7 : UInt32 := (V0 >>> 16) ^^^ (V1 <<< 16) ^^^ (V1 >>> 16) ^^^ (V2 <<< 16) ^^^ (V3 >>> 16) ^^^ (V4 <<< 16) ^^^ (V5 >>> 16) ^^^ (V6 <<< 16) ^^^ (V6 >>> 16) ^^^ (V7 <<< 16) ^^^ V7 ^^^ V0 ^^^ V3 ^^^ V4 ^^^ V5
   ⟨R0, R1, R2, R3, R4, R5, R6, R7⟩
-
-/-- `pp_crypto_hash_gost3411_process (ctx, data)`: the new `ctx->hash`
-    (key generation, four GOST 28147-89 encryptions, the three LFSR blocks — in source order) -/
-def step (hash data : W8) : W8 :=
-  let W := keyGenW hash data
-  let K0 := transP W.1
-  let K1 := transP W.2.1
-  let K2 := transP W.2.2.1
-  let K3 := transP W.2.2.2
-  -- GOST 28147-89 encryption of the four 64-bit parts of ctx->hash
-  let s0 := encrypt hash.w0 hash.w1 K0
-  let s1 := encrypt hash.w2 hash.w3 K1
-  let s2 := encrypt hash.w4 hash.w5 K2
-  let s3 := encrypt hash.w6 hash.w7 K3
-  let S : W8 := ⟨s0.1, s0.2, s1.1, s1.2, s2.1, s2.2, s3.1, s3.2⟩
-  lfsr61 (lfsr1 (lfsr12 S data) hash)
 
 /-! ## 256-bit addition -/
 
